@@ -182,6 +182,16 @@ CHECKS['C10'] = {
     'note': 'Trusted: cv2.remap, scipy/numpy interpolation (A6); continuous geometry beyond the grid is not decided; trigonometry is not reasoned about.',
 }
 
+CHECKS['C18'] = {
+    'level': 'other',
+    'technique': 'partial: deductive proof of rotate_layout against the np.rot90 axiom (z3) + bounded numeric contract of parse()/detect() on synthetic ridge maps with a stub network',
+    'text': ('PROVED for all image sizes and any number of points: rotate_layout maps baselines, outlines and region polygons of an analysis rotated by 90/180/270 degrees to within '
+             'one pixel of their exact pre-image under np.rot90, all three lists consistently. BOUNDED numeric: parse() gives one line per ridge with end points within 3 ds, vertical '
+             'position within ~1.5 ds, heights = map x ds and each line its own heights, on synthetic maps (1-3 ridges, lengths 6/20/60, slopes 0/+-0.1, end-point responses on/off, '
+             'ds 1/2/4/8); detect() with a stub network returns original-image coordinates for rot 0..3 on a non-square page.'),
+    'note': 'Trusted: np.rot90 axiom, scipy.ndimage / shapely / cv2 (A6); lists of length one in the rotation proof (the code treats list elements independently); ridge decoding beyond the grid not decided.',
+}
+
 NOT_APPLICABLE = {
     'C20': ('equality up to round-off of float tensors produced by torch C++ kernels through module-resident caches across calls: no contract '
             'within reach can state it over reals, no finite domain makes a bounded check exhaustive; a random differential test would be a different technique (DESIGN.md §6)'),
